@@ -116,7 +116,7 @@ PROPS = {
         family="eco", edge_q=["zerofee_q", "params_e"], edge=["params_e", "zerofee_q"],
         mc=[("params_q", 300), ("zerofee_q", 60)], mc_t=[("params_t", 900), ("zerofee_q", 60)],
         inv=[],
-        step=["C18_FeeExact", "C18_NoFeatureDisabled", "C18_ParamsAsSet"],
+        step=["C18_FeeExact", "C18_NoFeatureDisabled", "C18_ParamsAsSet", "C11_PutIf"],
         tinv=[],
         tstep=["T_C18_NoAbnormalAbort"],
     ),
